@@ -313,6 +313,9 @@ class P:
                     e = ("field", e, v)
             elif self.at("(") and e[0] in ("var", "path"):
                 e = ("call", e, self.args())
+            elif self.at("?"):
+                self.next()
+                e = ("try", e)
             elif self.at("["):
                 self.next()
                 ix = self.expr()
@@ -826,6 +829,10 @@ class Tr:
                 return self.apply(f, "U." + m, args, env, recv=recv)
             b2, a2, t2 = self.apply(f, "U." + m, args, env, recv=("__atom", paren(ar)))
             return br + b2, a2, t2
+        if m == "unwrap" and isinstance(tr_, tuple) and tr_[0] == "option":
+            f.impure = True
+            v = f.fresh()
+            return br + ["do %s <- (match %s with Some x_ => Val x_ | None => Panic end) ;" % (v, ar)], v, tr_[1]
         if m == "len" and isinstance(tr_, tuple) and tr_[0] == "slice":
             return br, "(lenZ %s)" % paren(ar), "usize"
         if m in ("wrapping_add", "wrapping_sub", "wrapping_mul"):
@@ -939,6 +946,15 @@ class Tr:
             env = dict(env)
             env[s[1]] = (name, s[2])
             return rest(env)
+        if k == "let" and s[3][0] == "try":
+            # `let p = E?;` in a function returning Option: None is returned at once
+            b, a, t = self.ex(f, s[3][1], env)
+            if not (isinstance(t, tuple) and t[0] == "option") or not (retty and retty[0] == "option"):
+                raise Unsupported("`?` outside Option")
+            env = dict(env)
+            pat = self.bind_pat(s[1], t[1], env)
+            f.impure = True
+            return "%s match %s with None => Val None | Some %s =>\n  %s end" % (" ".join(b), a, pat, rest(env))
         if k == "let":
             b, a, t = self.ex(f, s[3], env, s[2])
             env = dict(env)
@@ -1208,9 +1224,11 @@ TARGETS = [
     ("src/div.rs", UINT_IMPL, "checked_div", "U.checked_div", "g_checked_div", "uint"),
     ("src/div.rs", UINT_IMPL, "checked_rem", "U.checked_rem", "g_checked_rem", "uint"),
     ("src/div.rs", UINT_IMPL, "div_ceil", "U.div_ceil", "g_div_ceil", "uint"),
+    ("src/add.rs", UINT_IMPL, "checked_add", "U.checked_add", "g_checked_add", "uint"),
+    ("src/special.rs", "pub fn next_multiple_of", "checked_next_multiple_of", "U.checked_next_multiple_of", "g_checked_next_multiple_of", "uint"),
+    ("src/special.rs", UINT_IMPL, "next_multiple_of", "U.next_multiple_of", "g_next_multiple_of", "uint"),
     ("src/add.rs", UINT_IMPL, "overflowing_sub", "U.overflowing_sub", "g_overflowing_sub", "uint"),
     ("src/add.rs", UINT_IMPL, "overflowing_neg", "U.overflowing_neg", "g_overflowing_neg", "uint"),
-    ("src/add.rs", UINT_IMPL, "checked_add", "U.checked_add", "g_checked_add", "uint"),
     ("src/add.rs", UINT_IMPL, "checked_sub", "U.checked_sub", "g_checked_sub", "uint"),
     ("src/add.rs", UINT_IMPL, "checked_neg", "U.checked_neg", "g_checked_neg", "uint"),
     ("src/add.rs", UINT_IMPL, "saturating_add", "U.saturating_add", "g_saturating_add", "uint"),
